@@ -243,22 +243,29 @@ def finish(report: Report) -> int:
         print(f"KNOWN-FINDING: property={report.prop} {known[fid]['what']} "
               f"[{fid}; {cnt} case(s) this run]")
     rc = 0
-    seen = set()
-    for v in report.violations[:20]:
+    per_clause = {}
+    listed = 0
+    for v in report.violations:
+        k = per_clause.get(v.clause, 0)
+        per_clause[v.clause] = k + 1
+        if k >= 4 or listed >= 60:
+            continue
+        listed += 1
         rdir = REPLAYS / report.prop
         rdir.mkdir(parents=True, exist_ok=True)
         safe = "".join(ch if ch.isalnum() or ch in "-_." else "_" for ch in str(v.case_id))[:80]
         path = rdir / f"{safe}.json"
         path.write_text(json.dumps({"property": report.prop, "clause": v.clause,
                                     "case": v.case}, indent=1, sort_keys=True))
-        key = (v.clause,)
-        if key in seen and len(seen) > 8:
-            continue
-        seen.add(key)
         print(f"VIOLATION property={report.prop} replay={path} clause={v.clause}")
         rc = 1
-    if len(report.violations) > 20:
-        print(f"... {len(report.violations) - 20} further violating cases not listed")
+    if len(report.violations) > listed:
+        print(f"... {len(report.violations) - listed} further violating cases not listed")
+    if report.violations:
+        hist = {}
+        for v in report.violations:
+            hist[v.clause] = hist.get(v.clause, 0) + 1
+        print("violated clauses: " + json.dumps(hist, sort_keys=True))
     cov = {
         "states": int(report.states),
         "transitions": int(report.transitions),
